@@ -9,4 +9,7 @@ print("| seeded change | breaks | needs | caught by (quick checks) | before stre
 print("|---|---|---|---|---|")
 for m in rows:
     before = m.get("caught_before_strengthening")
-    print(f"| `{m['name']}` | {m['breaks_property']} | {m['needs_to_manifest']} | {', '.join(m['caught_by_quick_checks']) or '**none**'} | {(', '.join(before) or '**none**') if before is not None else 'same'} |")
+    col = (', '.join(before) or '**none**') if before is not None else 'same'
+    if before is None and str(m.get("owner_check_on_arrival", "")).startswith("missed"):
+        col = "owner **missed** (only the owner's check was run on arrival)"
+    print(f"| `{m['name']}` | {m['breaks_property']} | {m['needs_to_manifest']} | {', '.join(m['caught_by_quick_checks']) or '**none**'} | {col} |")
